@@ -28,7 +28,7 @@ func genCacheCase(t *rapid.T) CacheCase {
 		Limit:    rapid.OneOf(rapid.IntRange(1, 12), rapid.IntRange(6, 12), rapid.IntRange(1, 12), rapid.IntRange(13, 70)).Draw(t, "limit"),
 		SizeMode: rapid.SampledFrom([]string{"unit", "unit", "val"}).Draw(t, "sizeMode"),
 	}
-	c.Ops = rapid.SliceOfN(genCOp(copKinds), 0, 60).Draw(t, "ops")
+	c.Ops = rapid.SliceOfN(genCOp(copKinds), 0, vk.MaxOps(t, 60, 500)).Draw(t, "ops")
 	if c.Limit > 12 {
 		// large caches: more operations so that the cache fills and cycles
 		more := rapid.SliceOfN(genCOp(copKinds), c.Limit, 3*c.Limit).Draw(t, "moreOps")
